@@ -503,6 +503,9 @@ func prGen(kind string) func(c *core.Ctx) {
 			{"m\n", map[string]string{"m": "f() { a\nb\n}"}}, {"m\n", map[string]string{"m": "if (a\nb) then c; fi"}},
 			{"x\n", map[string]string{"x": "{ a\n}"}}, {"{ x }\n", map[string]string{"x": "a\n"}}, {"f() { x }\n", map[string]string{"x": "a\n"}}, {"x\n", map[string]string{"x": "{ (a) >f\n}"}},
 			{"x\n", map[string]string{"x": "{ cat <<E\nbody\nE\n}"}}, {"x\n", map[string]string{"x": "echo $(cat <<E\nbody\nE\n)"}}, {"x\n", map[string]string{"x": "echo `cat <<E\nbody\nE\n`"}},
+			{"m\n", map[string]string{"m": "(echo 'a\nb')"}}, {"m\n", map[string]string{"m": "{ echo \"a\nb\"; }"}}, {"m\n", map[string]string{"m": "if a; then echo 'a\nb'; fi"}},
+			{"m\n", map[string]string{"m": "(echo $(a\nb))"}}, {"echo $(( $(m) ))\n", map[string]string{"m": "a\nb"}}, {"m\n", map[string]string{"m": "for x in ${y:-a\nb}; do c; done"}},
+			{"m\n", map[string]string{"m": "case 'a\nb' in x) c;; esac"}}, {"m\n", map[string]string{"m": "while a >'f\ng'; do b; done"}}, {"m\n", map[string]string{"m": "echo $({ a\n})"}},
 			{"m\n", map[string]string{"m": "if a; then b; fi"}}, {"m; n\n", map[string]string{"m": "a |\nb", "n": "c &&\nd"}},
 		} {
 			cs := prCase{Src: a.src, Aliases: a.al, Kind: "alias-made"}
@@ -546,6 +549,8 @@ var prDedicated = []string{
 	// a here-document line that continues with a multi-line substitution / arithmetic command
 	"cat <<E; echo $(\n\ta\n)\nbody\nE\n", "cat <<E | tee `\n\ta\n`\nbody\nE\n", "cat <<E $(\n\ta\n)\nbody\nE\n", "x=$(\n\ta\n) cat <<E\nbody\nE\n",
 	"cat <<E; ((\n1\n))\nbody\nE\n", "cat <<E; echo $((\n1\n))\nbody\nE\n", "cat <<E $((\n1 +\n2))\nbody\nE\n",
+	// arithmetic text is kept character for character, whatever its parentheses look like
+	"(( ) ) ((a))\n", "(()a)((1))\n", "echo $(( 1 ) ) ((2))\n", "(((1)) ); ((2))\n", "(( 1 ) + ( 2 ))\n",
 	// after a redirection the next word is an ordinary command name, even if it spells a reserved word
 	">f if\n", ">f ! a\n", "<f { a\n", ">f for\n", "2>&1 while x\n", ">f case\n", "<<E done\nbody\nE\n", ">f then b | >g fi\n", "x=1 >f do\n", ">f x=1 }\n",
 	// delimiters and patterns that need care when they are written back
